@@ -32,7 +32,7 @@ var stubSigs = []string{
 	"func(x struct{ a int8; _ [0]int; b int64 }, y [3]complex64)", "func(f func(int) int, m map[string]int, c chan int, i interface{})",
 	"func(xs ...uint32) uint32", "func(a int8, _ int64, c uint16) (uint8, error)", "func(x, y float64) (lo, hi float64)",
 }
-var stubPragmas = [][]string{{"noescape"}, {"nosplit"}, {"linkname", "localname", "runtime.foo"}, {"norace"}}
+var stubPragmas = [][]string{{"noescape"}, {"nosplit"}, {"linkname", "localname", "runtime.foo"}, {"norace"}, {"linkname other runtime.bar"}, {"nocheckptr"}}
 var stubDocs = [][]string{{"Sum adds things."}, {"Dot computes x·y.", "", "It is fast."}, {"100% sure: a % b"}, {"line with trailing space "}, {"first\nsecond in one string"}}
 
 func c12(c *Ctx) {
@@ -58,6 +58,7 @@ func c12(c *Ctx) {
 			prag      [][]string
 		}
 		var fns []fnInfo
+		hasLinkname := false
 		for j := 0; j < nf; j++ {
 			fi := fnInfo{name: fmt.Sprintf("Fn%d_%d", k, j), sig: Pick(rng, stubSigs)}
 			ctx.Function(fi.name)
@@ -69,8 +70,8 @@ func c12(c *Ctx) {
 			}
 			for p := 0; p < rng.Intn(3); p++ {
 				pr := Pick(rng, stubPragmas)
-				if pr[0] == "linkname" {
-					continue // needs import "unsafe" in the stub; outside what avo supports
+				if strings.HasPrefix(pr[0], "linkname") {
+					hasLinkname = true // the stub then needs import "unsafe", which avo does not emit: not compiled below
 				}
 				fi.prag = append(fi.prag, pr)
 				ctx.Pragma(pr[0], pr[1:]...)
@@ -136,10 +137,21 @@ func c12(c *Ctx) {
 				fnSecs = append(fnSecs, fn)
 			}
 		}
+		requested := map[string][][]string{}
+		for _, fi := range fns {
+			requested[fi.name] = fi.prag
+		}
 		for _, fn := range fnSecs {
 			var ps []string
-			for _, p := range fn.Pragmas {
-				ps = append(ps, cPair(cStr(p.Directive), cStrs(p.Arguments)))
+			if rq, mine := requested[fn.Name]; mine {
+				// the directives as they were given to Context.Pragma, not as the function stores them
+				for _, pr := range rq {
+					ps = append(ps, cPair(cStr(pr[0]), cStrs(pr[1:])))
+				}
+			} else {
+				for _, p := range fn.Pragmas {
+					ps = append(ps, cPair(cStr(p.Directive), cStrs(p.Arguments)))
+				}
 			}
 			sfs = append(sfs, fmt.Sprintf("{| sf_name := %s; sf_doc := %s; sf_pragmas := %s; sf_sig := %s |}", cStr(fn.Name), cStrs(fn.Doc), cList(ps), cStr(fn.Signature.String())))
 		}
@@ -225,7 +237,7 @@ func c12(c *Ctx) {
 				noResults = false // asmdecl would (rightly) complain that our dummy bodies do not write the results
 			}
 		}
-		if noResults && (nBuilt < 6 || c.Thorough() && nBuilt < 60) {
+		if noResults && !hasLinkname && (nBuilt < 6 || c.Thorough() && nBuilt < 60) {
 			nBuilt++
 			pd := filepath.Join(dir, fmt.Sprintf("p%d", k))
 			os.MkdirAll(pd, 0o755)
@@ -288,6 +300,36 @@ func c12(c *Ctx) {
 			}
 		}
 	}
+	// probe: a function carrying a linkname directive (the compiler accepts it only in files that import "unsafe")
+	{
+		ctx := build.NewContext()
+		ctx.Function("Linked")
+		ctx.Attributes(attr.NOSPLIT)
+		ctx.SignatureExpr("func()")
+		ctx.Pragma("linkname", "Linked", "stublink.other")
+		ctx.RET()
+		f, err := ctx.Result()
+		if err == nil && pass.Compile.Execute(f) == nil {
+			cfgL := printer.Config{Name: "avo", Pkg: "stublink"}
+			idx := o.AddCase(Case{Key: "stub:probe", Desc: "Function(Linked); Pragma(linkname, Linked, stublink.other)", Input: map[string]any{"probe": "linkname directive"}, Nontrivial: true})
+			stub, e1 := printer.NewStubs(cfgL).Print(f)
+			asm, e2 := printer.NewGoAsm(cfgL).Print(f)
+			if e1 == nil && e2 == nil {
+				pd := filepath.Join(dir, "stublink")
+				os.MkdirAll(pd, 0o755)
+				os.WriteFile(filepath.Join(pd, "stub.go"), stub, 0o644)
+				os.WriteFile(filepath.Join(pd, "stub_amd64.s"), asm, 0o644)
+				os.WriteFile(filepath.Join(pd, "go.mod"), []byte("module stublink\n\ngo 1.23\n"), 0o644)
+				cmd := exec.Command("go", "build", "./...")
+				cmd.Dir = pd
+				cmd.Env = append(os.Environ(), "GOFLAGS=-mod=mod")
+				if out, err := cmd.CombinedOutput(); err != nil {
+					o.Plan.GoViolations = append(o.Plan.GoViolations, GoViolation{Key: "stub:linkname-without-import", Desc: fmt.Sprintf("case %d: the stub carrying //go:linkname does not compile: %s", idx, lastLine(strings.TrimSpace(string(out)))), Replay: map[string]any{"stub": string(stub)}})
+				}
+				os.RemoveAll(pd)
+			}
+		}
+	}
 	var good []string
 	for _, r := range rows {
 		if r != "" {
@@ -309,3 +351,8 @@ func c12(c *Ctx) {
 }
 
 func importerDefault() types.Importer { return importer.Default() }
+
+func lastLine(s string) string {
+	ls := strings.Split(s, "\n")
+	return ls[len(ls)-1]
+}
